@@ -379,7 +379,7 @@ func verifC17Keys(m map[btcutil.Amount]*lnwire.ClosingSigned) []int64 {
 func TestVerifC17Negotiation(t *testing.T) {
 	vc := lnwallet.VerifStart(t, "C17", "negotiation")
 	defer vc.Finish()
-	total := vc.N(400, 12000)
+	total := vc.N(400, 4000)
 	for i := 0; i < total; i++ {
 		if !vc.Mine(i) {
 			continue
